@@ -236,7 +236,10 @@ def judge(ctx, case, b, P, links, files, recs, stage):
                     ctx.violation(f"{pre}resolve:{k}:no-reference", f"{lk['md']} produced {[r.tagname for r in refs]} instead of one reference", case, detail)
                     continue
                 r = refs[0]
-                page = rel(D["name"] + ".html", lk["to"] + ".html")
+                # the page URI between two documents is the builder's business (html: a/b.html, dirhtml: a/b/): take it from Sphinx, check it against the html rule
+                page = b.app.builder.get_relative_uri(D["name"], lk["to"])
+                if b.builder == "html" and page != rel(D["name"] + ".html", lk["to"] + ".html"):
+                    ctx.count("model_disagrees_with_sphinx_relative_uri")
                 if k == "doc":
                     exp_uri, exp_id = page, None
                 elif k in ("slug", "label"):
@@ -352,7 +355,7 @@ def eval_case(ctx, case):
     R = random.Random(case["seed"])
     P = make_project(R)
     files, links = build_files(P, R)
-    b = drive.SphinxBuild(dict(files), conf={"myst_heading_anchors": P["anchors"], "exclude_patterns": ["inc_*.md"]}, builder="html", parallel=case.get("parallel", 0))
+    b = drive.SphinxBuild(dict(files), conf={"myst_heading_anchors": P["anchors"], "exclude_patterns": ["inc_*.md"]}, builder=case.get("builder", "html"), parallel=case.get("parallel", 0))
     try:
         try:
             b.build()
@@ -395,7 +398,7 @@ def run_shard(ctx):
     R = ctx.rng
     n = 8 if ctx.tier == "quick" else 400
     for i in range(n):
-        case = {"kind": "project", "seed": R.getrandbits(48), "parallel": R.choice([0, 0, 2, 4]), "mutation": R.choice([None, "strip-anchors", "strip-anchors", "delete-doc"]), "target": R.randrange(64), "restore": R.random() < 0.5}
+        case = {"kind": "project", "seed": R.getrandbits(48), "parallel": R.choice([0, 0, 2, 4]), "mutation": R.choice([None, "strip-anchors", "strip-anchors", "delete-doc"]), "target": R.randrange(64), "restore": R.random() < 0.5, "builder": R.choice(["html", "html", "html", "dirhtml"])}
         nt = eval_case(ctx, case)
         ctx.case(("project", case["seed"], case["parallel"], case["mutation"]), bool(nt))
         if i == 0:
